@@ -57,6 +57,8 @@ ParallelInit(int_t n, pxgstrf_relax_t *pxgstrf_relax,
 #elif ( MACH==DEC || MACH==PTHREAD )
     pxgstrf_shared->lu_locks = (pthread_mutex_t *) 
         SUPERLU_MALLOC(NO_GLU_LOCKS * sizeof(pthread_mutex_t));
+    if ( !pxgstrf_shared->lu_locks )
+	SUPERLU_ABORT("SUPERLU_MALLOC fails for lu_locks[]");
     for (i = 0; i < NO_GLU_LOCKS; ++i)
 	pthread_mutex_init(&pxgstrf_shared->lu_locks[i], NULL);
 #else
@@ -73,6 +75,8 @@ ParallelInit(int_t n, pxgstrf_relax_t *pxgstrf_relax,
     pxgstrf_shared->spin_locks = intCalloc(n);
     pxgstrf_shared->pan_status = 
         (pan_status_t *) SUPERLU_MALLOC((n+1)*sizeof(pan_status_t));
+    if ( !pxgstrf_shared->pan_status )
+	SUPERLU_ABORT("SUPERLU_MALLOC fails for pan_status[]");
     pxgstrf_shared->fb_cols    = intMalloc(n+1);
 
     panel_size = superlumt_options->panel_size;
@@ -240,6 +244,7 @@ int_t queue_init(queue_t *q, int_t n)
     if ( n < 1 ) return (-1);
 
     q->queue = (qitem_t *) SUPERLU_MALLOC(n*sizeof(qitem_t));
+    if ( !q->queue ) return (-1);
     q->count = 0;
     q->head = 0;
     q->tail = 0;
